@@ -264,6 +264,14 @@ var directedHistories = [][]opSpec{
 		{Kind: "enable", Snap: "some-snap"},
 		{Kind: "refresh-new", Snap: "some-snap", Rev: 4, Enum: true},
 	},
+	{ // a revert that leaves the reverted-from revision eligible for refresh, then the refresh back to it
+		{Kind: "install", Snap: "some-snap", Rev: 1},
+		{Kind: "refresh-new", Snap: "some-snap", Rev: 3},
+		{Kind: "revert", Snap: "some-snap", NotBlk: true, Enum: true},
+		{Kind: "refresh-kept", Snap: "some-snap", Rev: 3, Enum: true},
+		{Kind: "revert", Snap: "some-snap", Enum: true},
+		{Kind: "refresh-new", Snap: "some-snap", Rev: 4, Enum: true},
+	},
 	{ // configuration must go away with the snap, not before
 		{Kind: "install", Snap: "some-other-snap", Rev: 2, Enum: true},
 		{Kind: "config", Snap: "some-other-snap", CfgVal: "v1"},
@@ -292,6 +300,13 @@ func (s *verifC1011Suite) request(op opSpec) (*state.TaskSet, string, error) {
 		return ts, "refresh-snap", err
 	case "refresh-kept":
 		ts, err := snapstate.Update(s.state, op.Snap, &snapstate.RevisionOptions{Revision: snap.R(op.Rev), Channel: op.Channel}, s.user.ID, flags)
+		if err == nil {
+			// the request must really target the kept revision (guards the harness
+			// against fakes that alias snap.Info objects)
+			if snapsup, e2 := snapstate.TaskSnapSetup(ts.Tasks()[0]); e2 == nil && snapsup.Revision().N != op.Rev {
+				panic(fmt.Sprintf("harness: refresh to kept revision %d produced a change for revision %s", op.Rev, snapsup.Revision()))
+			}
+		}
 		return ts, "refresh-snap", err
 	case "revert":
 		if op.NotBlk {
@@ -323,7 +338,13 @@ func (s *verifC1011Suite) settleQuiet() error {
 	s.state.Unlock()
 	defer s.state.Lock()
 	// a generous watchdog (the machine may be heavily loaded): firing is inconclusive
-	return s.o.Settle(5 * time.Minute)
+	d := 5 * time.Minute
+	if v := os.Getenv("VERIF_SETTLE_S"); v != "" {
+		if n, err := strconv.Atoi(v); err == nil {
+			d = time.Duration(n) * time.Second
+		}
+	}
+	return s.o.Settle(d)
 }
 
 type attempt struct {
@@ -341,6 +362,10 @@ type attempt struct {
 // error-trigger task after task number spliceAfter; backendFault > 0 makes the
 // n-th fault-capable backend operation fail. State lock held.
 func (s *verifC1011Suite) run(op opSpec, spliceAfter, backendFault int) (*attempt, error) {
+	// what snapd's own periodic prune does, with a small limit: the state is
+	// marshalled at every unlock, so hundreds of finished changes make every
+	// later change slower and slower to settle
+	s.state.Prune(time.Now(), time.Hour, 24*time.Hour, 2)
 	ts, chgKind, err := s.request(op)
 	if err != nil {
 		return nil, err
@@ -548,16 +573,17 @@ func (s *verifC1011Suite) runHistory(c *C, chk *kit.Check, prop string, hi int, 
 		nops = len(fixed)
 	}
 	var history []opSpec
-	for _, n := range []string{"some-snap", "some-other-snap"} {
-		s.fakeBackend.addSnapApp(n, "app")
-	}
+	abandoned := false
+	// (no fakeBackend.addSnapApp here: it makes ReadInfo hand out one shared
+	// *snap.Info per snap whose SideInfo is overwritten by every later call, so a
+	// refresh to a kept revision would silently target the current one)
 	if rnd.Intn(3) > 0 {
 		// start with a generous limit so that sequences grow beyond the default
 		tr := config.NewTransaction(st)
 		tr.Set("core", "refresh.retain", 4+rnd.Intn(3))
 		tr.Commit()
 	}
-	for oi := 0; oi < nops; oi++ {
+	for oi := 0; oi < nops && !abandoned; oi++ {
 		s.refreshModel(m)
 		op := genOp(rnd, m)
 		if fixed != nil {
@@ -577,7 +603,13 @@ func (s *verifC1011Suite) runHistory(c *C, chk *kit.Check, prop string, hi int, 
 			continue
 		}
 		faultable := op.Kind == "install" || op.Kind == "refresh-new" || op.Kind == "refresh-kept" || op.Kind == "revert" || op.Kind == "revert-to"
-		enumerate := faultable && (!kit.Quick() || oi >= nops-2 || (fixed != nil && op.Enum))
+		enumerate := faultable && (!kit.Quick() || oi >= nops-2)
+		if fixed != nil {
+			// directed histories stay exactly as written in both tiers: a fault
+			// that fires after an irreversible discard would change what the
+			// later requests of the history mean
+			enumerate = op.Enum
+		}
 		witness := func(extra map[string]interface{}) map[string]interface{} {
 			mm := map[string]interface{}{"case_index": hi, "history": history, "op_index": oi, "op": op}
 			for k, v := range extra {
@@ -623,11 +655,27 @@ func (s *verifC1011Suite) runHistory(c *C, chk *kit.Check, prop string, hi int, 
 			}
 			chk.Eval()
 			if a.err != nil {
-				chk.Inconclusive(fmt.Sprintf("history %d op %d: change did not settle: %v", hi, oi, a.err))
+				// the system is in an unknown intermediate state: nothing later in
+				// this history can be judged
+				abandoned = true
+				unready := []string{}
+				for _, t := range a.chg.Tasks() {
+					if !t.Status().Ready() {
+						unready = append(unready, t.Kind()+":"+t.Status().String())
+					}
+				}
+				chk.Inconclusive(fmt.Sprintf("history %d op %d (%s, fault splice=%d backend=%d): change did not settle: %v; unready tasks: %v", hi, oi, op.Kind, splice, bfault, a.err, unready))
 				return true, true, a.ntasks
 			}
 			removed := w.apply(a.ops, a.failedIdx)
 			status := a.chg.Status()
+			if os.Getenv("VERIF_DEBUG") != "" {
+				kind := ""
+				if splice >= 0 && splice < len(a.kinds) {
+					kind = a.kinds[splice]
+				}
+				fmt.Printf("DEBUG hist=%d op=%d %s splice=%d(%s) bfault=%d fired=%v status=%s seq=%v\n", hi, oi, op.Kind, splice, kind, bfault, a.fired, status, s.view(op.Snap, w).Sequence)
+			}
 			pos := fmt.Sprintf("splice=%d backend=%d", splice, bfault)
 			s.crossCheck(chk, prop, witness(map[string]interface{}{"fault": pos, "change_status": status.String()}), w, op, before, status, pos)
 			if !a.fired {
@@ -657,6 +705,24 @@ func (s *verifC1011Suite) runHistory(c *C, chk *kit.Check, prop string, hi int, 
 					exp.Sequence = without(b.Sequence, removed[n])
 					exp.WorldMounted = without(b.WorldMounted, removed[n])
 					exp.Blocked = without(b.Blocked, removed[n])
+					if len(b.RevertStatus) > 0 {
+						// the marks of a revision that no longer exists go with it
+						exp.RevertStatus = map[string]string{}
+						for r, v := range b.RevertStatus {
+							gone := false
+							for _, x := range removed[n] {
+								if fmt.Sprint(x) == r {
+									gone = true
+								}
+							}
+							if !gone {
+								exp.RevertStatus[r] = v
+							}
+						}
+						if len(exp.RevertStatus) == 0 {
+							exp.RevertStatus = nil
+						}
+					}
 					chk.Count("faults_after_irreversible_discard", 1)
 				}
 				var diffs []string
